@@ -35,6 +35,10 @@ THEOREMS = [
     "SleapVerif.C11.centroid_none_iff",
     "SleapVerif.C11.prepPts_pattern",
     "SleapVerif.C11.sub_missing",
+    "SleapVerif.C11.label_missing_iff",
+    "SleapVerif.C11.empty_iff_all_missing",
+    "SleapVerif.C11.missing_repr_irrelevant_inst",
+    "SleapVerif.C11.missing_repr_irrelevant",
     "SleapVerif.C11.missing_stays_missing",
     "SleapVerif.C11.padding_rows_missing",
     "SleapVerif.C11.missing_stays_missing_centered",
@@ -199,15 +203,24 @@ def gen_labels_spec(rng):
         for _ in range(n_inst):
             kind = "pred" if rng.random() < 0.3 else "user"
             mode = rng.choice(["full", "full", "some", "empty", "anchorless"])
-            pts = []
+            pts, raw = [], []
             hole = rng.randrange(n_nodes)
+            # how this instance stores its missing nodes: NaN (what from_numpy stores), hidden
+            # (finite xy kept, visible=False), or a mix
+            how = rng.choice(["nan", "hidden", "hidden", "mix"])
             for n in range(n_nodes):
                 x, y = lattice(rng, 1, W - 2), lattice(rng, 1, H - 2)
                 if rng.random() < 0.15:
                     x, y = float(int(x)), float(int(y))
                 miss = {"full": False, "some": rng.random() < 0.4, "empty": True, "anchorless": n == hole}[mode]
-                pts.append([None, None] if miss else [x, y])
-            insts.append({"kind": kind, "pts": pts})
+                pts.append([None, None] if miss else [x, y])     # the label as the property means it
+                if not miss:
+                    raw.append([x, y, True])
+                elif how == "hidden" or (how == "mix" and rng.random() < 0.5):
+                    raw.append([x, y, False])                    # stored coordinates, not visible
+                else:
+                    raw.append([None, None, False])
+            insts.append({"kind": kind, "pts": pts, "raw": raw})
         frames.append({"frame_idx": fi, "video_idx": vi, "insts": insts})
     return {"n_nodes": n_nodes, "n_videos": 2 if two_videos else 1, "frames": frames}
 
@@ -226,6 +239,11 @@ def gen_cfg(rng, spec, kind=None):
             "max_stride": rng.choice([1, 16, 32]), "np_chunks": rng.random() < 0.2}
 
 
+def raw_of(inst):
+    """stored representation [x, y, visible] per node (older cases: NaN for every missing node)"""
+    return inst.get("raw") or [[p[0], p[1], p[0] is not None or p[1] is not None] for p in inst["pts"]]
+
+
 def ds_line(variant, spec, cfg, seq):
     mh, mw = cfg["max_hw"]
     ch, cw = cfg.get("cfg_max_hw", [None, None])
@@ -238,7 +256,8 @@ def ds_line(variant, spec, cfg, seq):
         H, W = VIDEO_HW[f["video_idx"]]
         tok += [str(f["frame_idx"]), str(f["video_idx"]), str(H), str(W), str(len(f["insts"]))]
         for i in f["insts"]:
-            tok += ["0" if i["kind"] == "user" else "1", str(len(i["pts"])), coords_line(i["pts"])]
+            tok += ["0" if i["kind"] == "user" else "1", str(len(i["pts"])),
+                    " ".join(f"{rat(x)} {rat(y)} {1 if v else 0}" for x, y, v in raw_of(i))]
     tok += [str(len(seq))] + [str(i) for i in seq]
     return " ".join(t for t in tok if t != "")
 
@@ -304,11 +323,20 @@ class World:
         for f in spec["frames"]:
             insts = []
             for i in f["insts"]:
-                arr = np.array([[np.nan if c is None else c for c in p] for p in i["pts"]], dtype="float64")
+                raw = raw_of(i)
+                arr = np.array([[np.nan if c is None else c for c in p[:2]] for p in raw], dtype="float64")
                 if i["kind"] == "user":
-                    insts.append(sio.Instance.from_numpy(arr, skel))
+                    inst = sio.Instance.from_numpy(arr, skel)
                 else:
-                    insts.append(sio.PredictedInstance.from_numpy(arr, skel, point_scores=np.full(len(arr), 0.5), score=0.9))
+                    inst = sio.PredictedInstance.from_numpy(arr, skel, point_scores=np.full(len(arr), 0.5), score=0.9)
+                for k, p in enumerate(raw):        # hide nodes that keep their stored coordinates
+                    if not p[2] and p[0] is not None:
+                        inst.points["visible"][k] = False
+                # sleap-io's own reading of the label must be the spec's `pts`
+                want = np.array([[np.nan if c is None else c for c in p] for p in i["pts"]], dtype="float64")
+                got = inst.numpy()
+                assert got.shape == want.shape and bool(((got == want) | (np.isnan(got) & np.isnan(want))).all())
+                insts.append(inst)
             lfs.append(sio.LabeledFrame(video=videos[f["video_idx"]], frame_idx=f["frame_idx"], instances=insts))
         return sio.Labels(labeled_frames=lfs, videos=videos, skeletons=[skel])
 
@@ -434,7 +462,8 @@ def run_dataset_case(chk, world, case, m_rep, m_asis, tmp):
 
     spec, cfg, seq = case["spec"], case["cfg"], case["seq"]
     labels = world.labels(spec)
-    before = [[(inst, inst.numpy().copy()) for inst in lf.instances] for lf in labels]
+    before = [[(inst, inst.numpy().copy(), inst.points["xy"].copy(), inst.points["visible"].copy())
+               for inst in lf.instances] for lf in labels]
     chunk_dir = None
     if cfg.get("np_chunks"):          # `.npz` chunk path: scratch directory, removed after the case
         chunk_dir = tempfile.mkdtemp(prefix="chunks_", dir=tmp)
@@ -511,9 +540,11 @@ def _run_dataset_case(chk, world, case, m_rep, m_asis, labels, before, chunk_dir
     dropped = 0
     for lf, snap in zip(labels, before):
         now = {id(x) for x in lf.instances}
-        for inst, arr in snap:
-            if not same(torch.from_numpy(inst.numpy()), torch.from_numpy(arr)):
-                fails.append("coordinates of a label instance changed")
+        for inst, arr, xy0, vis0 in snap:
+            if not same(torch.from_numpy(inst.numpy()), torch.from_numpy(arr)) \
+                    or not same(torch.from_numpy(inst.points["xy"].copy()), torch.from_numpy(xy0)) \
+                    or not bool((inst.points["visible"] == vis0).all()):
+                fails.append("coordinates / visibility of a label instance changed")
             if id(inst) not in now:
                 dropped += 1
                 if type(inst) is world.sio.Instance:
@@ -527,6 +558,15 @@ def _run_dataset_case(chk, world, case, m_rep, m_asis, labels, before, chunk_dir
     tags = [cfg["kind"], "user_only" if cfg["user_only"] else "all_instances", f"scale{cfg['scale']}",
             "anchor_none" if cfg["anchor"] is None else "anchor_set"] + (["anchor_missing_somewhere"] if anchor_holes else [])
     tags += ["np_chunks" if npc else "in_memory_cache"]
+    raws = [(i, raw_of(i)) for f in spec["frames"] for i in f["insts"]]
+    if any(not p[2] and p[0] is not None for _, r in raws for p in r):
+        tags.append("hidden_node_with_stored_xy")
+    if cfg["anchor"] is not None and any(not r[cfg["anchor"]][2] and r[cfg["anchor"]][0] is not None for _, r in raws):
+        tags.append("hidden_anchor_with_stored_xy")
+    if any(r and all(not p[2] and p[0] is not None for p in r) for _, r in raws):
+        tags.append("instance_all_hidden_with_stored_xy")
+    if any(i["kind"] == "pred" and any(not p[2] and p[0] is not None for p in r) for i, r in raws):
+        tags.append("hidden_node_in_predicted_instance")
     if any(c is not None for c in cfg.get("cfg_max_hw", [None, None])):
         tags.append("cfg_max_hw_set")
     key = (cfg["kind"], npc, ds_line(1, spec, cfg, []))
@@ -810,10 +850,13 @@ if __name__ == "__main__":
         ],
         rule="generate_centroids: 1-4 instances x 1-5 nodes, NaN pattern classes full/anchor missing/random/all NaN/one visible/half-NaN, "
              "anchor None or any node, rank 3 and 4; datasets: 1-4 frames over 1-2 synthetic videos cut from the shipped frame, 0-4 instances "
-             "(user/predicted, empty, anchorless), 2-4 nodes, 4 classes x user_only x max_hw x scale x anchor x crop, random __getitem__ "
+             "(user/predicted, empty, anchorless; every missing node stored either as NaN or as finite xy with visible=False, "
+             "anchor included, whole instances hidden), 2-4 nodes, 4 classes x user_only x max_hw x scale x anchor x crop, random __getitem__ "
              "sequences with repeats and out-of-range indices; distinct = distinct (class, labels, config); trivial = empty dataset",
         assumptions=["label coordinates on the k/16 lattice, size ratios dyadic (so float32 == rational arithmetic)",
                      "dataset-level labels use whole-point NaN only (half-NaN points are covered at generate_centroids level)",
+                     "labels are well-flagged (a node flagged visible stores coordinates), as sleap-io's constructors guarantee; "
+                     "a keypoint is missing iff not visible or NaN (Instance.numpy())",
                      "augmentation off for the determinism clause (apply_aug=False); augmentation functions are covered by the purity check",
                      "np_chunks=True cases use a scratch chunk directory (fresh chunks, use_existing_chunks=False)"],
     )
